@@ -1,11 +1,11 @@
 //go:build verif
 
-package simot
+package simot_test
 
-// C16 (ot/simot part), histories: ONE Sender and ONE Receiver object reused for
-// every sequence of 2..3 transfers; every transfer must behave like a transfer
-// between fresh objects (the receiver obtains exactly m_choice, its key is
-// k_choice and not the other key, the other ciphertext does not open).
+// C16 (ot/simot part), histories, exported API only: ONE Sender and ONE Receiver
+// object reused for every sequence of 2..3 transfers; every transfer must behave
+// like a transfer between fresh objects (the receiver obtains exactly m_choice;
+// a copy of its state asked for the other ciphertext fails).
 
 import (
 	"bytes"
@@ -15,13 +15,14 @@ import (
 
 	"github.com/cloudflare/circl/internal/verifc16"
 	"github.com/cloudflare/circl/internal/verifmc"
+	"github.com/cloudflare/circl/ot/simot"
 )
 
 func TestVerifC16_simot_histories(t *testing.T) {
 	r := verifmc.Start(t, "C16", "simot_histories")
 	defer r.Finish()
 	r.Rule("per group: one Sender and one Receiver object driven through every sequence of 2..3 transfers over the step alphabet choice in {0,1} x message pair in {(Msg(16), FF^16), (00^32, Msg(32))} " +
-		"(P-521 quick: sequences of 2); after each transfer: Round3 succeeds with exactly m_choice, receiver key = sender's k_choice != k_(1-choice), e_(1-choice) does not open under the receiver's key; " +
+		"(P-521 quick: sequences of 2); after each transfer: Round3Receiver succeeds with exactly m_choice, and a copy of the receiver's state (taken before round 3) asked for the other ciphertext fails; " +
 		"state = the two reused objects; non-trivial = distinct (group, sequence)")
 	groups := verifc16.Groups()
 	pairs := [][2][]byte{{verifmc.Msg(16), bytes.Repeat([]byte{0xff}, 16)}, {make([]byte, 32), verifmc.Msg(32)}}
@@ -67,8 +68,8 @@ func TestVerifC16_simot_histories(t *testing.T) {
 		}
 		r.Trace(1)
 		r.Distinct(id)
-		var sender Sender
-		var receiver Receiver
+		var sender simot.Sender
+		var receiver simot.Receiver
 		for ti, s := range j.seq {
 			choice, pi := s/2, s%2
 			m0, m1 := append([]byte{}, pairs[pi][0]...), append([]byte{}, pairs[pi][1]...)
@@ -82,11 +83,13 @@ func TestVerifC16_simot_histories(t *testing.T) {
 					map[string]interface{}{"group": g.Name, "history(choice/pair)": names, "failing_transfer": ti})
 			}
 			var e0, e1 []byte
-			var err error
+			var err, errOther error
+			var other simot.Receiver
 			if p, what := verifmc.Try(func() {
 				A := sender.InitSender(g.G, m0, m1, ti)
 				B := receiver.Round1Receiver(g.G, choice, ti, A)
 				e0, e1 = sender.Round2Sender(B)
+				other = receiver
 				err = receiver.Round3Receiver(e0, e1, choice)
 			}); p {
 				fail("panic:"+verifmc.PanicClass(what), what)
@@ -102,16 +105,11 @@ func TestVerifC16_simot_histories(t *testing.T) {
 				fail("wrong-message", fmt.Sprintf("receiver obtained %x, chosen message is %x", got, ms[choice]))
 				return
 			}
-			ks := [2][]byte{sender.k0, sender.k1}
-			es := [2][]byte{e0, e1}
-			if !bytes.Equal(receiver.kR, ks[choice]) {
-				fail("receiver-key-differs-from-k_choice", fmt.Sprintf("kR=%x k_choice=%x", receiver.kR, ks[choice]))
-			}
-			if bytes.Equal(receiver.kR, ks[1-choice]) {
-				fail("receiver-key-equals-other-key", fmt.Sprintf("kR=%x", receiver.kR))
-			}
-			if pt, err := aesDecGCM(receiver.kR, es[1-choice]); err == nil {
-				fail("other-message-decrypts", fmt.Sprintf("e_(1-choice) opens under the receiver's key to %x", pt))
+			if p, what := verifmc.Try(func() { errOther = other.Round3Receiver(e0, e1, 1-choice) }); p {
+				fail("panic:"+verifmc.PanicClass(what), what)
+				return
+			} else if errOther == nil {
+				fail("other-message-decrypts", fmt.Sprintf("Round3Receiver with the other selector returned %x", other.Returnmc()))
 			}
 			r.Count("transfers_correct", 1)
 		}
